@@ -192,6 +192,37 @@ C12Step ==
             i \in {i \in DOMAIN every : memOut(every[i].c) /\ Has(every[i].r, "mems")
                                           /\ SetOf(every[i].r.mems) # Get(mems0', every[i].c, {})}}
 
+\* -- C11: after Synchronize exactly the containers the runtime reports created/running hold allocations, the rest is purged --
+C11Step ==
+    IF E.ev # "Sync" \/ ~Ok THEN {}
+    ELSE LET live2 == {c \in DOMAIN E.rtctrs : E.rtctrs[c] \in {"created", "running"}}
+             optout == {c \in DOMAIN ctrs' : ctrs'[c].pcpu /\ ~IsTA}       \* balloons does not handle cpu.preserve containers
+         IN {V("Act_SyncPurgesUnknown", "container-not-in-runtime-list-still-cached", c) : c \in DOMAIN ctrs' \ DOMAIN E.rtctrs}
+            \cup {V("Act_SyncPurgesUnknown", "pod-not-in-runtime-list-still-cached", p) : p \in pods' \ SetOf(E.rtpods)}
+            \cup {V("Act_SyncExactlyLiveHold", "holds-resources-but-not-reported-alive", c) : c \in Holders \ live2}
+            \cup {V("Act_SyncExactlyLiveHold", "reported-alive-but-holds-nothing", c) :
+                     c \in ((live2 \cap DOMAIN ctrs') \ Holders) \ (optout \cup excused')}
+
+\* -- C13: reconfiguration --
+ResSame(a, b) == \A c \in DOMAIN a \cap DOMAIN b : a[c].res = b[c].res
+C13Step ==
+    IF E.ev # "Reconfigure" THEN {}
+    ELSE (IF Ok /\ Get(E, "same", FALSE) /\ ~ResSame(ctrs, ctrs')
+          THEN {V("Act_ReconfigSameIsNoop", "unchanged-config-changed-container-resources",
+                  {c \in DOMAIN ctrs \cap DOMAIN ctrs' : ctrs[c].res # ctrs'[c].res})} ELSE {})
+         \cup (IF Ok /\ Get(E, "same", FALSE) /\ rt' # rt
+               THEN {V("Act_ReconfigSameIsNoop", "unchanged-config-pushed-different-resources", {c \in DOMAIN rt : rt'[c] # rt[c]})} ELSE {})
+         \cup (IF E.err /\ ~ResSame(ctrs, ctrs')
+               THEN {V("Act_RejectedIsNoop", "rejected-at-" \o Get(E, "rejkind", "unknown") \o "-changed-container-resources",
+                       {c \in DOMAIN ctrs \cap DOMAIN ctrs' : ctrs[c].res # ctrs'[c].res})} ELSE {})
+         \cup (IF E.err /\ (pol' # pol \/ mem' # mem)
+               THEN {V("Act_RejectedIsNoop", "rejected-at-" \o Get(E, "rejkind", "unknown") \o "-changed-policy-state", E.ev)} ELSE {})
+\* twin comparison (done by the driver on three runs: with the rejected update, without, and a control without):
+\* identical follow-up requests give identical replies and states whenever the control agrees
+C13Twin ==
+    IF Has(E, "tw") /\ E.tw.ctl /\ ~E.tw.same
+    THEN {V("Act_RejectedLeavesNoTrace", "follow-up-differs-from-twin-that-never-saw-the-update", E.tw.diff)} ELSE {}
+
 \* -- C14 --
 C14Step ==
     (IF E.panic THEN {V("Act_NoPanic", "panic-in-" \o E.ev, Get(E, "panicmsg", ""))} ELSE {})
@@ -215,6 +246,8 @@ SigOf(pw) ==
             (IF \E g \in SetOf(pol'.grants) : g.c = w /\ g.excl = <<>> /\ TAPools(pol')[g.pool].fshar = {}
              THEN "shared-set-of-pool-is-empty" ELSE "after-" \o StepSig)
        ELSE IF pred = "Inv_RuntimeEqualsCache" /\ w[2] = "cpus" /\ emptied(w[1]) THEN "cache-cpuset-emptied-runtime-keeps-old"
+       ELSE IF pred = "Inv_RuntimeEqualsCache" /\ w[2] = "mems" /\ w[1] \in DOMAIN ctrs' /\ ctrs'[w[1]].res.mems = {}
+            THEN "cache-mems-emptied-runtime-keeps-old"
        ELSE IF pred = "Inv_ExclNotInOthersTold" /\ emptied(w[2]) THEN "other-cpuset-emptied-runtime-keeps-old"
        ELSE IF pred = "Inv_ExclNotInOthersTold" /\ IsTA /\ ~\E g \in SetOf(pol'.grants) : g.c = w[2]
             THEN "other-container-holds-no-grant"
@@ -285,8 +318,11 @@ TrStep ==
          [] E.ev = "Reconfigure" -> rtlive' = rtlive /\ rt' = ApplyBatches(rt, E.pushed)
          [] OTHER -> rtlive' = rtlive /\ rt' = ApplyUpds(rt, E.upd)
     /\ excused' = Excused2
-    /\ broken' = StateViols
-    /\ viols' = viols \o SetToSeq(NewViols \cup C05Step \cup C12Step \cup C14Step)
+    \* between a plugin restart and the Synchronize request that always follows it the state is transient (stale cache,
+    \* nothing allocated yet): state invariants are not judged there, whatever is wrong after the Synchronize is its doing
+    /\ broken' = IF E.ev = "Restart" THEN broken ELSE StateViols
+    /\ viols' = viols \o SetToSeq((IF E.ev = "Restart" THEN {} ELSE NewViols \cup C05Step \cup C11Step \cup C12Step \cup C13Step \cup C13Twin)
+                                  \cup C14Step)
     /\ l' = l + 1 /\ UNCHANGED done
 
 \* a request that panicked or hung: no state was logged, nothing is known to have changed
